@@ -220,9 +220,10 @@ def oracle(c, obs):
                         % (float(mu[j]), j)))
             break
     # a function of the flags alone: max(0, 1 - sum_k w_k * flag[j + (M-1)//2 - k]) in exact arithmetic
+    # (skipped where F-C16-a has been repaired: the faithful formula is then no longer the reference)
     w = [Fraction(float(v)) for v in scipy.signal.windows.cosine(M)]
     h = (M - 1) // 2
-    for j in range(ns):
+    for j in ([] if repaired_even(c, obs) else range(ns)):
         sacc = Fraction(0)
         for k in range(M):
             t = j + h - k
@@ -234,6 +235,35 @@ def oracle(c, obs):
                         % (j, float(mu[j]), float(want))))
             break
     return bad
+
+
+EVEN_REPAIRED = [False]     # decided once per run from all even-window cases, see even_windows_repaired()
+
+
+def even_defect_exercised(c, obs):
+    """even window and the defective formula leaves a non-zero gain on some flagged sample"""
+    if c.M % 2 == 1 or obs[0] != "ok" or obs[1].shape != obs[2].shape:
+        return False
+    fl = obs[1]
+    ns = len(fl)
+    w = scipy.signal.windows.cosine(c.M)
+    h = (c.M - 1) // 2
+    return any(sum(w[k] for k in range(c.M) if 0 <= j + h - k < ns and fl[j + h - k]) < 1.0
+               for j in np.flatnonzero(fl))
+
+
+def even_windows_repaired(cases, observations):
+    """Region of the known finding F-C16-a.  True when, on EVERY case of this run where the
+    defective formula would leave a non-zero gain on a flagged sample, the implementation has gain
+    0 on all flagged samples: the defect has been repaired.  Even-window mutes are then checked by
+    the property clauses only (range, zero on flags, one far away, mirrored input), not against
+    the faithful model / formula."""
+    ex = [(c, o) for c, o in zip(cases, observations) if even_defect_exercised(c, o)]
+    return bool(ex) and all(not np.any(o[2][np.flatnonzero(o[1])] != 0.0) for c, o in ex)
+
+
+def repaired_even(c, obs):
+    return EVEN_REPAIRED[0] and c.M % 2 == 0 and obs[0] == "ok"
 
 
 def metamorphic(c, obs):
@@ -492,7 +522,7 @@ def gen_cases(ctx):
 
 
 # --------------------------------------------------------------------------
-def compare_model(ctx, cases, inputs, outs):
+def compare_model(ctx, cases, inputs, outs, observations):
     """flags exactly, mute within 2^(s-TOL_BITS); extracted model on all, kernel on a sample."""
     model = common.Extracted(PROP).run_many(inputs, nproc=4)
     for i, c in enumerate(cases):
@@ -505,6 +535,8 @@ def compare_model(ctx, cases, inputs, outs):
             k = next((j for j, (a, b) in enumerate(zip(m, o)) if a != b), min(len(m), len(o)))
             what = "model and implementation differ at output position %d (header/flags; model %s, " \
                    "implementation %s)" % (k, m[k:k + 4], o[k:k + 4])
+        elif repaired_even(c, observations[i]):
+            outs[i] = m          # the kernel sample then only re-checks the flags of this case
         else:
             k = next((j for j in range(2 + ns, len(m)) if abs(m[j] - o[j]) > tol), None)
             if k is not None:
@@ -528,13 +560,17 @@ def compare_model(ctx, cases, inputs, outs):
 def run(ctx):
     common.proof_obligations(ctx, whitelist=WHITELIST)
     cases = gen_cases(ctx)
-    inputs, outs = [], []
+    inputs, outs, observations = [], [], []
     dist = {"origin": {}, "dtype": {}, "mv_kind": {}, "window": {}, "nc_max": 0, "ns_max": 0,
             "raises": 0, "flag_at_first": 0, "flag_at_last": 0, "isolated_flag": 0, "no_flag": 0, "all_flag": 0,
             "count_exactly_at_proportion": 0}
     nontrivial = set()
     for c in cases:
-        obs = impl_observe(c)
+        observations.append(impl_observe(c))
+    EVEN_REPAIRED[0] = even_windows_repaired(cases, observations)
+    if EVEN_REPAIRED[0]:
+        ctx.notes.append("even mute windows behave as repaired (F-C16-a no longer reproduces)")
+    for c, obs in zip(cases, observations):
         inputs.append(enc_inp(c))
         outs.append(enc_out(c, obs))
         nc, ns = c.data.shape
@@ -564,7 +600,7 @@ def run(ctx):
             dist["count_exactly_at_proportion"] += bool(np.any(cnt / nc == c.prop))
             if fl.any() and not fl.all():
                 nontrivial.add(hash((c.data.tobytes(), c.data.shape, tuple(c.mv_vals), c.mv_kind, c.vps, c.prop, c.M)))
-    compare_model(ctx, cases, inputs, outs)
+    compare_model(ctx, cases, inputs, outs, observations)
     samples = []
     for c, o in list(zip(cases, outs))[:: max(1, len(cases) // 6)]:
         ns = c.data.shape[1]
